@@ -77,6 +77,170 @@ def tree_configs(run, rnd, n_cfg):
                 run.nontriv(("c01-tree", run.shard[0], c, t))
 
 
+class river_classifier_view:
+    """A real river classifier behind a recording boundary.  The type name contains "river", so the library auto-wraps its
+    bound `predict_one` / `predict_proba_one` exactly like those of the river estimator itself."""
+
+    def __init__(self, est):
+        self.est, self.raw = est, []
+
+    def predict_one(self, x):
+        r = self.est.predict_one(x)
+        self.raw.append(r)
+        return r
+
+    def predict_proba_one(self, x):
+        r = self.est.predict_proba_one(x)
+        self.raw.append(r)
+        return r
+
+
+LABEL_POOL = ["ash", "birch", "cedar", "douglas", "elm", "fir"]
+
+
+def _label_estimator(kind, seed):
+    from river import naive_bayes, tree, neighbors, linear_model, multiclass, preprocessing, compose
+    if kind == "NB":
+        return naive_bayes.GaussianNB()
+    if kind == "HT":
+        return tree.HoeffdingTreeClassifier(grace_period=15)
+    if kind == "KNN":
+        return neighbors.KNNClassifier(n_neighbors=3)
+    if kind == "Softmax":
+        return compose.Pipeline(preprocessing.StandardScaler(), linear_model.SoftmaxRegression())
+    return compose.Pipeline(preprocessing.StandardScaler(), multiclass.OneVsRestClassifier(linear_model.LogisticRegression()))
+
+
+def _onehot(labels, hot):
+    out = {l: 0. for l in labels}
+    out[hot] = 1.
+    return out
+
+
+def label_configs(run, rnd, n_cfg):
+    """Multi-class river classifiers (3+ STRING labels, skewed frequencies, label noise) handed to the explainer the way the
+    documentation shows it: the bare bound `model.predict_one` / `model.predict_proba_one` (auto-wrapped by the library) or an
+    explicit RiverWrapper; the explainer builds its own default imputer and / or storage in most configurations; losses read the
+    prediction DICT (Brier over its keys, river's CrossEntropy metric, a plain cross-entropy function), so which labels a
+    prediction reports matters.  Test-then-train (the model learns the observation after it was explained) or frozen.
+
+    Premise of the statement: a deterministic model.  The library's RiverWrapper reports a label prediction one-hot over the
+    labels it has seen so far; when a label is predicted for the very first time in the MIDDLE of a call (for an imputed
+    instance) the wrapped model function answers the same x_i differently at the start and at the end of that call.  Such a
+    call is outside the premise when the loss can see the difference (decided from the raw predictions, the target and the
+    loss alone, never from the explainer's numbers); the stream ends there (counter `label-streams-ended-new-label-mid-call`)."""
+    import numpy as np
+    from ixai.explainer import IncrementalSage
+    from ixai.imputer import MarginalImputer
+    from ixai.storage import GeometricReservoirStorage, UniformReservoirStorage
+    from ixai.utils.wrappers import RiverWrapper
+    from ..riverlike import LossTwin
+    for c in range(n_cfg):
+        seed = rnd.randrange(2 ** 31)
+        random.seed(seed)
+        np.random.seed(seed % (2 ** 32))
+        srnd = random.Random(seed)
+        k = rnd.choice([3, 3, 4, 5])
+        labels = rnd.sample(LABEL_POOL, k)
+        d = rnd.choice([2, 3, 4, 5])
+        names = [f"f{j}" for j in range(d)]
+        centre = {l: [srnd.gauss(0, 2.5) for _ in names] for l in labels}
+        weights = [1.0, 0.8] + [rnd.choice([0.5, 0.15, 0.05]) for _ in range(k - 2)]
+        noise = rnd.choice([0.0, 0.15, 0.3])
+        kind = rnd.choice(["NB", "NB", "HT", "KNN", "Softmax", "OvR"])
+        est = _label_estimator(kind, seed)
+        method = "predict_one" if rnd.random() < 0.7 else "predict_proba_one"
+        wrap = "auto" if rnd.random() < 0.6 else "explicit"
+        imputer_kind = rnd.choice(["library-default", "library-default", "library-default", "joint", "product"])
+        if imputer_kind != "library-default" and method == "predict_one":
+            wrap = "explicit"       # one wrapper object shared by the explainer and the user's imputer
+        storage_kind = rnd.choice(["library-default", "library-default", "geometric", "uniform"])
+        if imputer_kind != "library-default" and storage_kind == "library-default":
+            storage_kind = "geometric"
+        learning = rnd.random() < 0.6
+        loss_kind = rnd.choice(["brier", "brier", "CrossEntropy", "ce-function"])
+        dyn = rnd.random() < 0.5
+        alpha = rnd.choice([0.001, 0.01, 0.1, 0.5])
+        n_inner = rnd.choice([1, 2, 3])
+
+        def draw():
+            y = srnd.choices(labels, weights)[0]
+            x = {n: centre[y][j] + srnd.gauss(0, 1) for j, n in enumerate(names)}
+            if srnd.random() < noise:
+                y = srnd.choice(labels)
+            return x, y
+
+        for l in labels:        # the model knows every class before the explanation starts
+            est.learn_one({n: centre[l][j] for j, n in enumerate(names)}, l)
+        for _ in range(rnd.choice([5, 20, 60])):
+            est.learn_one(*draw())
+        view = river_classifier_view(est)
+        fn = getattr(view, method)
+        model_fn = RiverWrapper(fn) if wrap == "explicit" else fn
+        twin = LossTwin("CrossEntropy" if loss_kind == "ce-function" else loss_kind)
+        if loss_kind == "ce-function":
+            import math
+            loss_arg = lambda y_true, y_prediction: -math.log(min(max(y_prediction.get(y_true, 0.), 1e-15), 1 - 1e-15)) \
+                if y_true in y_prediction else 0.
+        else:
+            loss_arg = twin.as_argument()
+        size = rnd.choice([3, 10, 50])
+        storage = {"library-default": None, "geometric": GeometricReservoirStorage(size=size, store_targets=False),
+                   "uniform": UniformReservoirStorage(size=size, store_targets=False)}[storage_kind]
+        imputer = None if imputer_kind == "library-default" else MarginalImputer(model_fn, imputer_kind, storage)
+        cfg = {"estimator": kind, "labels": labels, "weights": weights, "noise": noise, "d": d, "method": method, "wrap": wrap,
+               "imputer": imputer_kind, "storage": storage_kind, "size": size, "learning": learning, "loss": loss_kind,
+               "dynamic": dyn, "alpha": alpha, "n_inner": n_inner, "seed": seed}
+        try:
+            e = IncrementalSage(model_fn, loss_arg, names, smoothing_alpha=alpha, storage=storage, imputer=imputer,
+                                n_inner_samples=n_inner, dynamic_setting=dyn)
+        except Exception as ex:  # construction problems belong to C15
+            run.other_error(f"C15:construct:{type(ex).__name__}")
+            continue
+        run.count("label-model-configs")
+        if method == "predict_one" and wrap == "auto":
+            run.count("label-model-configs-bare-predict_one")
+            if imputer_kind == "library-default":
+                run.count("label-model-configs-bare-predict_one-default-imputer")
+        seen = set()                # labels the raw predict_one has returned in earlier calls
+        steps = rnd.choice([30, 50, 80])
+        pending = None
+        for t in range(steps):
+            if pending is not None and learning:
+                est.learn_one(*pending)
+            x, y = draw()
+            pending = (x, y)
+            first = est.predict_one(x) if method == "predict_one" else None
+            view.raw = []
+            try:
+                e.explain_one(x, y)
+            except Exception as ex:
+                run.ok(kind="raised")
+                run.violation("explain-raises", f"label cfg {cfg} step {t}: {type(ex).__name__}: {ex}", {"cfg": cfg, "step": t})
+                break
+            if t == 0:
+                continue
+            if method == "predict_one":
+                before = seen | {first}
+                seen = before | set(view.raw)
+                if seen != before:
+                    run.count("label-first-predicted-for-an-imputed-instance")
+                    if twin.one(y, _onehot(before, first)) != twin.one(y, _onehot(seen, first)):
+                        run.count("label-streams-ended-new-label-mid-call")
+                        break
+            tot = sum(e.importance_values.values())
+            exp = e.explained_loss
+            run.ok(kind="label-model")
+            if method == "predict_one" and y in seen and first != y:
+                run.count("label-evals-target-label-known-but-not-predicted")
+            if abs(float(tot) - float(exp)) > 1e-9 * (d + 2) * 40.0:
+                run.violation("efficiency-identity", f"label cfg {cfg} step {t}: sum(importance)={tot!r} explained_loss={exp!r}",
+                              {"cfg": cfg, "step": t})
+                break
+            if exp != 0:
+                run.nontriv(("c01-label", run.shard[0], c, t))
+
+
 def main(run):
     run.level = "exploration"
     run.rule = ("seeded configurations from the cfg product incl. TreeStorage/TreeImputer with position-reading models (mode x alpha x n_inner x d x storage x imputer x "
@@ -90,7 +254,10 @@ def main(run):
                 "ixai/utils/tracker/multi_value.py:MultiValueTracker.update")
     rnd = random.Random(run.shard_seed)
     tree_configs(run, random.Random(run.shard_seed + 17), 16 if run.tier == "quick" else 40)
-    run.require_count("real-model-configs", "long-stream-configs", "late-informative-model-configs")
+    label_configs(run, random.Random(run.shard_seed + 29), 24 if run.tier == "quick" else 80)
+    run.require_count("real-model-configs", "long-stream-configs", "late-informative-model-configs", "label-model-configs",
+                      "label-model-configs-bare-predict_one-default-imputer", "label-first-predicted-for-an-imputed-instance",
+                      "label-evals-target-label-known-but-not-predicted")
     for i in range(N_CFG[run.tier]):
         exact = (i % 3 != 2)
         if i % 15 == 14:     # a real river model that keeps learning, river streams and metrics, the library's own wrappers
